@@ -232,6 +232,13 @@ def main():
         r = verify(contract_of(case, case['good']), [], timeout_ms=800)
         if r.error or not any(o['name'].startswith('safety:no-' + exc) and o['status'] != 'unsat' for o in r.obligations):
             failures.append('%s: a possible %s was not seen (UNSOUND): %s' % (cname, exc, r.error))
+    # a loop that mutates a container its specification does not list in `modifies` must fail the frame obligation
+    case = dict([c for c in CASES if c['name'] == 'tally'][0])
+    case['loops'] = {'L1': LoopSpec(inv=["True"], modifies=[])}
+    r = verify(contract_of(case, ["True"]), [], timeout_ms=800)
+    if r.error or not any(o['name'].startswith('frame:L1:d') and o['status'] != 'unsat' for o in r.obligations):
+        failures.append('tally: a container mutated outside `modifies` was not reported (UNSOUND): %s %s'
+                        % (r.error, [o['name'] for o in r.obligations]))
     runs, bad = differential(random.Random(int(os.environ.get('VERIF_SEED', '0') or 0)), int(os.environ.get('SELFTEST_N', '25')))
     for name, args, want, got in bad[:10]:
         failures.append('differential %s%r: CPython %r, interpreter %r' % (name, args, want, got))
